@@ -456,6 +456,63 @@ theorem c10_keepalive_requires_framing (cfg : Cfg) (st : St) (hv : cfg.ver ≤ 1
     hasHdr (writePrepare cfg st).headers nUpgrade = true :=
   writePrepare_keepalive_framed cfg st hv hh hk
 
+/-- `c10_relay_exact` of DESIGN §6 for the case the proof covers end to end: a complete response
+    of an HTTP backend — status line `HTTP/1.1 ddd reason` with any status ≥ 200 other than
+    204/205/304, any list of ordinary end-to-end fields with pairwise different names, a
+    Content-Length field (any accepted spelling `clv` of the body length), a non-empty body —
+    received in one read reaches the HTTP/1.1 client as exactly: the status line of that status,
+    the same fields in the same order with the same bytes, the same Content-Length value, the
+    empty line and the same body bytes; the connection stays alive and the response ends,
+    whatever the backend does afterwards (`e`) and whatever stream-response-body is.
+    Every other composition of the same bytes into reads gives the same result by
+    `c10_head_segmentation` and `c10_body_segmentation_plain`.
+    MISSING for the full statement: chunked / EOF-delimited bodies, CGI-style heads, interim
+    responses and trailers as universally quantified theorems (they are covered by the
+    correspondence and by the decoder / reassembly theorems above, and as worked examples below). -/
+theorem c10_relay_exact_partial (cfg : Cfg) (d1 d2 d3 : UInt8) (reason : Bytes)
+    (fs : List (Bytes × Bytes)) (clv body : Bytes) (e : End)
+    (hbe : cfg.be = .proxy) (hv : cfg.ver = 1) (hh : cfg.head = false)
+    (hd : isDigit d1 ∧ isDigit d2 ∧ isDigit d3) (hc : codeOf d1 d2 d3 ≥ 200) (hr : lf ∉ reason)
+    (hcode : codeOf d1 d2 d3 ≠ 204 ∧ codeOf d1 d2 d3 ≠ 205 ∧ codeOf d1 d2 d3 ≠ 304)
+    (hfs : ∀ f ∈ fs, LineField f.1 f.2) (hnd : (fs.map fun kv => lower kv.1).Nodup)
+    (hne : clv ≠ []) (hhead : isWs (clv.headD 0) = false) (hplus : clv.head? ≠ some 43)
+    (htrim : trimRightWs clv = clv) (hclv : lf ∉ clv) (hnum : strtoI64 clv = some body.length)
+    (hbody : body ≠ []) (hsize : (clHead d1 d2 d3 reason fs clv).length ≤ 65535) (hcount : fs.length + 2 < 8190) :
+    (relay cfg [clHead d1 d2 d3 reason fs clv ++ body] e).evs =
+      [.w (h1StatusLine cfg (codeOf d1 d2 d3) ++ h1FieldLines (fs ++ [(ofString "Content-Length", clv)]) ++
+           crlf ++ crlf ++ body)] ∧
+    (relay cfg [clHead d1 d2 d3 reason fs clv ++ body] e).keepAlive = true ∧
+    (relay cfg [clHead d1 d2 d3 reason fs clv ++ body] e).cstate = .done ∧
+    (relay cfg [clHead d1 d2 d3 reason fs clv ++ body] e).status = codeOf d1 d2 d3 :=
+  relay_cl_exact cfg d1 d2 d3 reason fs clv body e hbe hv hh hd hc hr hcode hfs hnd hne hhead hplus htrim hclv hnum
+    hbody hsize hcount
+
+/-- the field lines of the client-side head are the stored fields verbatim (`CRLF name ": " value`),
+    plus a Date line when the backend sent none -/
+theorem c10_field_lines_verbatim (hs : List (Bytes × Bytes))
+    (h : ∀ kv ∈ hs, kv.1 ≠ [] ∧ kv.2 ≠ [] ∧ omitHeader kv.1 = false) :
+    h1FieldLines hs = (hs.flatMap fun kv => crlf ++ kv.1 ++ [colon, sp] ++ kv.2) ++
+      (if hasHdr hs nDate then [] else dateLine) := by
+  unfold h1FieldLines
+  congr 1
+  induction hs with
+  | nil => rfl
+  | cons kv rest ih =>
+    have hk := h kv (by simp)
+    have e1 : kv.1.isEmpty = false := by cases hkv : kv.1 <;> simp_all
+    have e2 : kv.2.isEmpty = false := by cases hkv : kv.2 <;> simp_all
+    simp only [List.flatMap_cons, e1, e2, hk.2.2, Bool.or_self, Bool.false_eq_true, if_false]
+    rw [ih (fun x hx => h x (by simp [hx]))]
+
+/-! non-vacuity of `c10_relay_exact_partial`: a concrete instance of every hypothesis -/
+example : LineField (ofString "X-Foo") (ofString "bar baz") :=
+  { toPlainField := ⟨by decide, by decide, by decide, by decide, by decide, by decide⟩, klf := by decide, vlf := by decide }
+example : strtoI64 (ofString "005") = some (ofString "hello").length ∧ trimRightWs (ofString "005") = ofString "005" ∧
+    isWs ((ofString "005").headD 0) = false ∧ (ofString "005").head? ≠ some 43 := by decide
+example : clHead 50 48 48 (ofString "OK") [(ofString "X-Foo", ofString "bar")] (ofString "5") =
+    ofString "HTTP/1.1 200 OK\r\nX-Foo: bar\r\nContent-Length: 5\r\n\r\n" := by decide
+example : codeOf 50 48 48 = 200 := by decide
+
 /-! ## the planned top-level statements, assembled from the parts above -/
 
 /-- `c10_segmentation` of DESIGN §6: the three automata (chunked decoder, FastCGI reassembly, plain
